@@ -1,5 +1,6 @@
 import Tahoe.Http.LemmasAuth
 import Tahoe.Http.LemmasSpec
+import Tahoe.Http.LemmasUploads
 /-! C30 — HTTP storage API authorization (property theorems; helper lemmas are in `Tahoe/Http/LemmasAuth.lean`
 and `Tahoe/Http/LemmasSpec.lean`).
 
@@ -18,6 +19,7 @@ connection), which is itself the specification `authorization_is_pure` states.
 | the decision depends on nothing but (route, headers) — not on the state, earlier requests or the connection | `authorization_is_pure`, `served_iff_authorized` (handler runs ⇔ `Authorized`: swissnum header first, every secret value well formed, kinds present = kinds required), `matched_route_is_generated`, `all_routes_wrapped_by_authorization`, `route_table_documented`, `route_table_modelled`, `secret_names_documented`.  That the real server keeps no per-connection memory is correspondence/monitor only (keep-alive sequences in harness/props/c30.py) |
 | "requests with missing or malformed secrets are rejected without side effects" | `bad_secrets_no_effect` (400 / 500, state unchanged), `accepted_secrets_well_formed`, `handler_receives_collected_secrets` (exactly which value sets are accepted and what the handler receives) |
 | "writes to or aborts of an in-progress upload require that upload's secret" | `upload_secret_required` (any state change by PATCH / PUT …/abort on an upload in progress ⇒ gate passed and presented secret = that upload's, whichever other uploads exist) |
+| … and nothing else removes or replaces an upload in progress (an allocation in particular) | `upload_untouched_without_its_secret` (one request), `uploads_change_only_by_their_own_secret` (histories), `allocate_leaves_uploads_alone`.  Timeouts and disconnects (`BucketWriter._abort_due_to_timeout`, `disconnected`) are outside the request model: not covered |
 | "mutable writes require the write enabler" | `enabler_required` (any state change by read-test-write on a slot holding a share — existing, new or mixed share numbers — ⇒ presented enabler = every existing share's) |
 | quantifier "histories … interleaved with legitimate uploads by other clients" | `unauthorized_requests_are_noops` (final state and the answers to the authorized requests are those of the history without the unauthorized ones) |
 | TLS, certificate pin | not covered (out of scope, DESIGN) |
@@ -276,5 +278,63 @@ example : Authorized [1] [.upload] [authHeader [1]]
     [[117, 112, 108, 111, 97, 100, 45, 115, 101, 99, 114, 101, 116, 32, 81, 85, 74, 68]] :=
   ⟨rfl, by decide, [[117, 112, 108, 111, 97, 100, 45, 115, 101, 99, 114, 101, 116, 32, 81, 85, 74, 68]],
    [(.upload, [65, 66, 67])], by decide, by rfl, by intro k; cases k <;> simp⟩
+
+/-! ### uploads in progress belong to their upload secret -/
+
+/-- **One request.**  Whatever the request — any route, an allocation for the same share number with another
+size and another secret included — an upload in progress that is not exactly what it was afterwards (cells,
+secret, lease, or gone) was addressed by a served PATCH / PUT …/abort presenting its own upload secret. -/
+theorem upload_untouched_without_its_secret (sw : Bytes) (st : State) (rq : Request) (k : Key) (u : Upload)
+    (h : lookupK k st.up = some u) (hchg : lookupK k (step sw st rq).1.up ≠ some u) :
+    ∃ m sec, gate sw rq = .pass m sec ∧ (m.route = .write ∨ m.route = .abort) ∧ (m.args.si, m.args.shnum) = k ∧
+      getS sec .upload = u.secret :=
+  step_up sw st rq k u h hchg
+
+/-- **Histories.**  Over any history in which no served write / abort addressed to the upload presents its secret,
+the upload is still there, byte for byte, with the same secret — whoever allocates, writes, aborts or leases what
+around it. -/
+theorem uploads_change_only_by_their_own_secret (sw : Bytes) (st : State) (reqs : List Request) (k : Key) (u : Upload)
+    (h : lookupK k st.up = some u) (hno : ∀ rq ∈ reqs, ¬ touches sw k u.secret rq) :
+    lookupK k (run sw st reqs).1.up = some u :=
+  run_up sw st reqs k u h hno
+
+/-- the allocation handler itself: every upload in progress is left exactly as it is, and a share that is being
+uploaded is reported neither as already-have nor as allocated -/
+theorem allocate_leaves_uploads_alone (st : State) (sec : SecretsDict) (si : String) (ns : List Nat) (size : Nat)
+    (k : Key) (u : Upload) (h : lookupK k st.up = some u) :
+    lookupK k (hAllocate st sec si ns size).1.up = some u ∧
+    (k.1 = si → (hAllocate st sec si ns size).2.body ≠ .allocated [] [k.2] ∧
+      ∀ a b, (hAllocate st sec si ns size).2.body = .allocated a b → k.2 ∉ b) := by
+  refine ⟨hAllocate_up st sec si ns size k u h, fun hsi => ?_⟩
+  have key : ∀ a b, (hAllocate st sec si ns size).2.body = .allocated a b → k.2 ∉ b := by
+    intro a b hb
+    simp only [hAllocate, ssAllocate, RBody.allocated.injEq] at hb
+    rw [← hb.2]
+    intro hmem
+    rw [List.mem_filter] at hmem
+    have hk : (si, k.2) = k := by rw [← hsi]
+    rw [hk, h] at hmem
+    simp at hmem
+  exact ⟨fun hb => key [] [k.2] hb (by simp), key⟩
+
+-- share 0 is being uploaded with secret [9]; an allocation for the same share with another size and another upload
+-- secret ("ABC") is answered 200 with nothing allocated and the upload is untouched
+example :
+    let st : State := { up := [(("aaaaaaaaaaaaaaaaaaaaaaaaaa", 0), ⟨[9], [some 7, none], ([1], [2])⟩)] }
+    let sec : SecretsDict := [(.leaseRenew, [3]), (.leaseCancel, [4]), (.upload, [65, 66, 67])]
+    hAllocate st sec "aaaaaaaaaaaaaaaaaaaaaaaaaa" [0, 1] 5 =
+      ({ up := [(("aaaaaaaaaaaaaaaaaaaaaaaaaa", 0), ⟨[9], [some 7, none], ([1], [2])⟩),
+                (("aaaaaaaaaaaaaaaaaaaaaaaaaa", 1), ⟨[65, 66, 67], List.replicate 5 none, ([3], [4])⟩)] },
+       ⟨200, .allocated [] [1]⟩) := by decide
+
+-- a write and an abort presenting another secret ("ABC"), in one history: the upload with secret [9] is still there
+example :
+    let si := "aaaaaaaaaaaaaaaaaaaaaaaaaa"
+    let x : List Bytes := [[117, 112, 108, 111, 97, 100, 45, 115, 101, 99, 114, 101, 116, 32, 81, 85, 74, 68]]
+    let st : State := { up := [((si, 0), ⟨[9], [some 7, none], ([1], [2])⟩)] }
+    let h : List Request := [⟨"PATCH", ["storage", "v1", "immutable", si, "0"], [authHeader [1]], x, .write (some ⟨"bytes", some (1, 2)⟩) [8]⟩,
+                             ⟨"PUT", ["storage", "v1", "immutable", si, "0", "abort"], [authHeader [1]], x, .none⟩]
+    lookupK (si, 0) (run [1] st h).1.up = some ⟨[9], [some 7, none], ([1], [2])⟩ ∧
+    (run [1] st h).2.map (·.status) = [401, 401] := by decide
 
 end Tahoe.C30
